@@ -189,8 +189,8 @@ Definition term_split (t : expr) : Q * expr :=
 Definition term_build (q : Q) (key : expr) : expr :=
   if is_one q then key else
   match key with
-  | Cst _ m => Cst q m
-  | Mul _ m v => Mul q m v
+  | Cst q' m => Cst (Qred (q * q')) m          (* keys carry the coefficient 1 *)
+  | Mul q' m v => Mul (Qred (q * q')) m v
   | _ => Mul q [] key
   end.
 
@@ -510,6 +510,27 @@ Definition agree2 (op : expr -> expr -> expr) (a b res : rexpr) : bool :=
 Definition infer_agree (impl : rexpr) (r : ires) : bool :=
   match norm impl with Some e => ires_eqb (infer e) r | None => false end.
 
+(* the atoms of a value / of a program *)
+Fixpoint atoms (e : expr) : list (string * nat * nat) :=
+  match e with
+  | Form s k n => [(s, k, n)]
+  | D a | Delta a | Hodge a => atoms a
+  | Wedge a b => atoms a ++ atoms b
+  | Add ts => (fix go (l : list expr) : list (string * nat * nat) :=
+                 match l with [] => [] | t :: r => atoms t ++ go r end) ts
+  | Cst _ _ => []
+  | Mul _ _ v => atoms v
+  end.
+Fixpoint tatoms (t : tree) : list (string * nat * nat) :=
+  match t with
+  | TForm s k n => [(s, k, n)]
+  | TConst _ => []
+  | TScale _ t | TD t | TDelta t | THodge t => tatoms t
+  | TSum ts => (fix go (l : list tree) : list (string * nat * nat) :=
+                  match l with [] => [] | t :: r => tatoms t ++ go r end) ts
+  | TWedge a b => tatoms a ++ tatoms b
+  end.
+
 (* ------------------------------------------------------------------ semantics *)
 (* A graded module with the operators of exterior calculus.  [gops] carries the
    operations, [laws] the defining hypotheses (Proofs/ExteriorP.v works in a Section over
@@ -622,25 +643,10 @@ Section Semantics.
     end.
 
   (* well-formed atoms: dimension n, degree within 0..n, and the environment gives a k-form *)
-  Fixpoint wfe (e : expr) : Prop :=
-    match e with
-    | Form s k n => n = dim G /\ (k <= n)%nat /\ deg G (fenv s) k
-    | D a | Delta a | Hodge a => wfe a
-    | Wedge a b => wfe a /\ wfe b
-    | Add ts => (fix go (l : list expr) : Prop :=
-                   match l with [] => True | t :: r => wfe t /\ go r end) ts
-    | Cst _ _ => True
-    | Mul _ _ v => wfe v
-    end.
-  Fixpoint wft (t : tree) : Prop :=
-    match t with
-    | TForm s k n => n = dim G /\ (k <= n)%nat /\ deg G (fenv s) k
-    | TConst _ => True
-    | TScale _ t | TD t | TDelta t | THodge t => wft t
-    | TSum ts => (fix go (l : list tree) : Prop :=
-                    match l with [] => True | t :: r => wft t /\ go r end) ts
-    | TWedge a b => wft a /\ wft b
-    end.
+  Definition good_atom (a : string * nat * nat) : Prop :=
+    let '(s, k, n) := a in n = dim G /\ (k <= n)%nat /\ deg G (fenv s) k.
+  Definition wfe (e : expr) : Prop := forall a, In a (atoms e) -> good_atom a.
+  Definition wft (t : tree) : Prop := forall a, In a (tatoms t) -> good_atom a.
 End Semantics.
 
 (* no bare constant used as an operand: the grammar of the property *)
